@@ -422,4 +422,50 @@ Proof.
   - cbn [nth_error time_after] in *. exact (IH _ _ _ H5 E).
 Qed.
 
+(* what is known of every record of a run, under either dynamics: handlers of stochastic events
+   are called on members, taps of stochastic events name registered events of positive probability *)
+Definition run_rec : obs -> Prop := stoch_rec (fun x => In x (all_events tb) /\ 0 < ev_p (snd x)).
+
+Lemma tranche_run_rec : forall t o, tranche_rec tb t o -> run_rec o.
+Proof.
+  intros t o. destruct o; simpl; try tauto.
+  - intros (H & _). right; exact H.
+  - intros (_ & j & ev & H1 & H2 & H3). right. exists j, ev. repeat split; assumption.
+Qed.
+
+Lemma steps_ok_flat : forall steps t, steps_ok t steps -> Forall run_rec (flat steps).
+Proof.
+  induction steps as [|[[ti lp] lt] steps IH]; intros t H; [constructor|].
+  cbn [steps_ok] in H. destruct H as (_ & _ & H3 & H4 & H5).
+  unfold flat. cbn [flat_map fst snd]. apply Forall_app; split; [apply Forall_app; split|].
+  - exact (Forall_impl _ (posted_stoch _ t) H3).
+  - exact (Forall_impl _ (tranche_run_rec t) H4).
+  - exact (IH _ H5).
+Qed.
+
+Lemma sync_run_records : forall pf fuel rs ds, Forall run_rec (r_out (sync_run tb pf fuel rs ds)).
+Proof.
+  intros pf fuel rs ds. destruct (sync_run_spec pf fuel rs ds) as [steps (E1 & E2 & _)].
+  rewrite E1. apply Forall_app; split; [|exact (steps_ok_flat _ _ E2)].
+  apply Forall_rev. eapply Forall_impl; [apply act_stoch|]. exact (proj1 (setup_state_out tb rs [] ds)).
+Qed.
+
+(* reading run_rec *)
+Lemma run_rec_member : forall k t c e m, run_rec (OHandler k t c e (Some m)) -> m = true.
+Proof. intros k t c e m [H|H]; [discriminate | inversion H; reflexivity]. Qed.
+
+Lemma run_rec_tap : forall t pi pi' j e, run_rec (OTap t pi (NEv pi' j) e) ->
+  pi' = pi /\ exists ev, In (pi, j, ev) (all_events tb) /\ 0 < ev_p ev.
+Proof.
+  intros t pi pi' j e [[k H]|(j' & ev & H1 & H2 & H3)]; [discriminate|].
+  inversion H1; subst. split; [reflexivity|]. exists ev. split; assumption.
+Qed.
+
+Lemma run_rec_zero : forall t pi j e ev, In (pi, j, ev) (all_events tb) -> ev_p ev == 0 ->
+  ~ run_rec (OTap t pi (NEv pi j) e).
+Proof.
+  intros t pi j e ev Hin Hz H. apply run_rec_tap in H. destruct H as (_ & ev' & Hin' & Hp).
+  rewrite (all_events_fun tb _ _ _ _ Hin Hin') in Hz. rewrite Hz in Hp. exact (Qlt_irrefl _ Hp).
+Qed.
+
 End KS.
